@@ -251,6 +251,15 @@ fn structured_cases(ctx: &Ctx, scratch: &std::path::Path) -> Vec<Case> {
         ("byte-negative-dseg", ".dseg\n.byte -5\n.byte 3\n"),
         ("byte-i64max-eseg", ".eseg\n.byte 9223372036854775807\n"),
         ("byte-twice-wraps-u32", ".dseg\n.byte 4294967295\n.byte 4294967295\n"),
+        // sizes whose low 32 bits look harmless
+        ("byte-2pow32-eseg", ".eseg\n.byte 4294967296\n"),
+        ("byte-2pow32-plus-8-eseg", ".eseg\n.byte 0x100000008\n.db 1\n"),
+        ("byte-2pow33-plus-16-eseg", ".eseg\n.byte 0x200000010\n"),
+        ("byte-2pow32-dseg", ".dseg\n.byte 4294967296\n.byte 1\n"),
+        ("byte-2pow40-plus-1-dseg", ".dseg\n.byte 0x10000000001\n"),
+        ("org-2pow32-plus-2-cseg", ".org 4294967298\nnop\n"),
+        ("org-2pow32-plus-2-eseg", ".eseg\n.org 0x100000002\n.db 1\n"),
+        ("org-2pow32-plus-0x70-dseg", ".dseg\n.org 0x100000070\n.byte 1\n"),
         ("org-then-byte-wraps", ".dseg\n.org 4294967290\n.byte 100\n"),
         ("org-cseg-wraps-with-code", ".org 4294967295\nnop\nnop\n"),
         ("org-on-small-device", ".device ATtiny13\n.org 0x3fffffff\nnop\n"),
